@@ -144,6 +144,136 @@ def run_bdb(case):
     return res
 
 
+
+# ---------------------------------------------------------------------------- public entry points that keep the caller's x order
+def entry_xy(n, seed, order, layout='c'):
+    """x in the requested ORDER (the entry points below do not sort), y = the same function of x plus noise."""
+    import numpy as np
+    rng = np.random.default_rng(seed)
+    x = np.linspace(-3.0, 17.0, n)
+    if order == 'repeated':               # ties: every third value repeated once
+        x = np.sort(np.concatenate([x[: n - n // 3], x[: n // 3 * 3: 3][: n // 3]]))[:n]
+    t = (x - x.min()) / (x.max() - x.min())
+    y = 5 + 10 * t + 3 * np.sin(3 * t) + 30 * np.exp(-0.5 * ((t - 0.3) / 0.03) ** 2) + 20 * np.exp(-0.5 * ((t - 0.7) / 0.02) ** 2)
+    y = y + rng.normal(0, 0.5, n)
+    w = rng.choice([0.0, 0.5, 1.0, 1.0, 2.0], size=n)
+    if order == 'reversed':
+        idx = np.arange(n)[::-1]
+    elif order == 'shuffled':
+        idx = rng.permutation(n)
+    elif order == 'appended':             # the second half of a scan stored before the first half
+        idx = np.concatenate([np.arange(n // 2, n), np.arange(0, n // 2)])
+    else:
+        idx = np.arange(n)
+    x, y, w = x[idx].copy(), y[idx].copy(), w[idx].copy()
+    if layout == 'strided':               # non-contiguous views of larger buffers
+        def strided(a):
+            buf = np.full(2 * len(a), -7.25)
+            buf[::2] = a
+            return buf[::2]
+        x, y, w = strided(x), strided(y), strided(w)
+    elif layout == 'negstride':           # negative strides
+        x, y, w = x[::-1].copy()[::-1], y[::-1].copy()[::-1], w[::-1].copy()[::-1]
+    return x, y, w, idx
+
+
+def run_entry(job, y_override=None):
+    """One call of a public utility / helper class; returns (main array, dict of further numeric outputs)."""
+    import numpy as np
+    from pybaselines import utils, _spline_utils as su, _banded_utils as bu
+    kw = dict(job.get('kw', {}))
+    x, y, w, idx = entry_xy(job['n'], job['seed'], job.get('order', 'sorted'), job.get('layout', 'c'))
+    if y_override is not None:
+        y = y_override(y)
+    name = job['entry']
+    use_w = kw.pop('use_weights', False)
+    if name == 'pspline_smooth':
+        out, tck = utils.pspline_smooth(y, x_data=x, weights=w if use_w else None, **kw)
+        return out, {'knots': tck[0], 'coef': tck[1], 'degree': tck[2]}
+    if name == 'whittaker_smooth':
+        return utils.whittaker_smooth(y, weights=w if use_w else None, **kw), {}
+    if name == 'spline_basis':
+        b = su.SplineBasis(x, kw.get('num_knots', 8), kw.get('spline_degree', 3))
+        return b.basis.toarray().ravel(), {'knots': b.knots, 'num_bases': b._num_bases}
+    if name == 'pspline_direct':
+        b = su.SplineBasis(x, kw.get('num_knots', 8), kw.get('spline_degree', 3))
+        ps = su.PSpline(b, kw.get('lam', 10.0), kw.get('diff_order', 2), kw.get('allow_lower', True), False)
+        out = ps.solve_pspline(y, w if use_w else np.ones(len(y)))
+        return out, {'coef': ps.coef, 'penalty': ps.penalty}
+    if name == 'penalized_direct':
+        ps = bu.PenalizedSystem(len(y), kw.get('lam', 100.0), kw.get('diff_order', 2), kw.get('allow_lower', True), None,
+                                kw.get('allow_pentapy', True), pentapy_solver=kw.get('pentapy_solver', 2))
+        ww = w if use_w else np.ones(len(y))
+        return ps.solve(ps.add_diagonal(ww), ww * y), {}
+    if name == 'optimize_window':
+        return np.array([float(utils.optimize_window(y, **kw))]), {}
+    if name == 'pad_edges':
+        return utils.pad_edges(y, **kw), {}
+    if name == 'padded_convolve':
+        return utils.padded_convolve(y, utils.gaussian_kernel(kw.get('window', 7), kw.get('sigma', 1.5))), {}
+    if name == 'difference_matrix':
+        return utils.difference_matrix(job['n'], kw.get('diff_order', 2)).toarray().ravel(), {}
+    raise KeyError(name)
+
+
+# ---------------------------------------------------------------------------- compiled kernel <-> alternative (fallback) code path
+def run_pairs(case):
+    """Each optionally compiled kernel that has a DIFFERENT fallback implementation, run together with that fallback
+    in this process on the same (possibly non-monotone) inputs: largest absolute differences."""
+    import numpy as np
+    from scipy.interpolate import BSpline
+    from scipy import sparse
+    from pybaselines import _spline_utils as su
+    x, y, w, idx = entry_xy(case['n'], case['seed'], case['order'], case.get('layout', 'c'))
+    k, nk = case['degree'], case['num_knots']
+    res = {}
+    basis = su.SplineBasis(x, nk, k)
+    knots, nb = basis.knots, basis._num_bases
+    # (1) design matrix: the kernel route (_make_design_matrix), SciPy's BSpline.design_matrix, the slow pure-Python route
+    mats = {'make_design_matrix': su._make_design_matrix(np.asarray(x, dtype=float), knots, k).toarray()}
+    if hasattr(BSpline, 'design_matrix'):
+        mats['scipy_design_matrix'] = BSpline.design_matrix(np.asarray(x, dtype=float), knots, k).toarray()
+    mats['slow_design_matrix'] = su._slow_design_matrix(np.asarray(x, dtype=float), knots, k).toarray()
+    mats['SplineBasis.basis'] = basis.basis.toarray()
+    ref = mats['slow_design_matrix']
+    for name, m in mats.items():
+        res['design:' + name] = float(np.max(np.abs(m - ref))) if m.shape == ref.shape else float('inf')
+    # (2) B'WB and B'Wy: _numba_btb_bty (as bound, and its py_func when compiled) vs the sparse product of solve_pspline
+    B = basis.basis.tocsr()
+    full = (B.T @ sparse.diags(w) @ B).toarray()
+    rhs_ref = B.T @ (w * y)
+    lower_ref = np.zeros((k + 1, nb))
+    for r in range(k + 1):
+        lower_ref[r, :nb - r] = np.diagonal(full, -r)
+    kern = su._numba_btb_bty
+    if len(B.data) == len(x) * (k + 1):
+        for name, fn in (('numba_btb_bty', kern), ('numba_btb_bty.py_func', getattr(kern, 'py_func', None))):
+            if fn is None:
+                continue
+            ab = np.zeros((k + 1, nb), order='F')
+            rhs = np.zeros(nb)
+            fn(basis.x, knots, k, np.asarray(y, dtype=float), np.asarray(w, dtype=float), ab, rhs, B.data)
+            res['btb:' + name] = float(np.max(np.abs(ab - lower_ref)))
+            res['bty:' + name] = float(np.max(np.abs(rhs - rhs_ref)))
+    res['scale'] = float(max(np.max(np.abs(full)), np.max(np.abs(rhs_ref)), 1.0))
+    # (3) PSpline.solve_pspline: the arm taken in this process vs the other arm forced on the same object
+    outs = {}
+    for arm in (True, False):
+        ps = su.PSpline(basis, 10.0, 2, case.get('allow_lower', True), False)
+        if arm and not ps._use_numba and not su._HAS_NUMBA:
+            pass
+        ps._use_numba = arm
+        try:
+            outs[arm] = np.array(ps.solve_pspline(np.asarray(y, dtype=float), np.asarray(w, dtype=float) + 0.1), dtype=float)
+        except Exception as e:   # noqa
+            outs[arm] = type(e).__name__
+    if isinstance(outs[True], str) or isinstance(outs[False], str):
+        res['solve_pspline:arms'] = 0.0 if str(outs[True]) == str(outs[False]) else float('inf')
+    else:
+        res['solve_pspline:arms'] = float(np.max(np.abs(outs[True] - outs[False])) / max(np.max(np.abs(outs[False])), 1e-300))
+    return res
+
+
 # ---------------------------------------------------------------------------- oracle
 def make_data(n, seed, kind='noise'):
     import numpy as np
@@ -239,7 +369,14 @@ def run_oracle(job):
         with warnings.catch_warnings(), np.errstate(all='ignore'):
             warnings.simplefilter('ignore')
             try:
-                if job.get('functional'):
+                if job.get('entry'):
+                    ov = None
+                    if key.startswith('pert'):
+                        def ov(v, _t=int(key[4:])):
+                            sg = np.random.default_rng(job['seed'] + 1 + _t).choice([-1.0, 1.0], size=len(v))
+                            return v * (1.0 + sg * 2.0 ** -50)
+                    base, params = run_entry(job, ov)
+                elif job.get('functional'):
                     base, params = call_functional(job['method'], x, y, job.get('kw', {}))
                 else:
                     base, params = methods.run_1d(job['method'], x, y, fitter=f, **job.get('kw', {}))
@@ -317,7 +454,12 @@ def main(argv):
     block_numba, block_pentapy = int(argv[0]), int(argv[1])
     install_blockers(block_numba, block_pentapy)
     job = json.load(sys.stdin)
-    res = {'facts': shim_facts() if job.get('facts') else None, 'capture': {}, 'oracle': {}, 'bdb': {}}
+    res = {'facts': shim_facts() if job.get('facts') else None, 'capture': {}, 'oracle': {}, 'bdb': {}, 'pairs': {}}
+    for case in job.get('pairs', []):
+        try:
+            res['pairs'][case['id']] = run_pairs(case)
+        except Exception as e:   # noqa
+            res['pairs'][case['id']] = {'exc': f'{type(e).__name__}: {e}'[:200]}
     for case in job.get('bdb', []):
         res['bdb'][case['id']] = run_bdb(case)
     for case in job.get('capture', []):
